@@ -186,7 +186,10 @@ class RecordToGraph(Unit):
     def run(self, ctx):
         def nrec(name, senders):
             steps = Rec("StepRecord", dict(seq=z3.Const(f"{name}.seq", Leaf), ts_start=z3.Const(f"{name}.ts_start", Leaf), ts_end=z3.Const(f"{name}.ts_end", Leaf), eps=None, delay=None, rng=None, inputs=None, state=None, output=None), module=BASE, frozen=True)
-            ins = {u: Rec("InputRecord", dict(info=None, messages=Rec("MessageRecord", dict(seq_out=z3.Const(f"{u}{name}.seq_out", Leaf), seq_in=z3.Const(f"{u}{name}.seq_in", Leaf), ts_sent=z3.Const(f"{u}{name}.ts_sent", Leaf),
+            # the connection b <- a is made under a shadow input name (connect(..., name="obs")): InputInfo.name != the sender's name, InputInfo.output = the sender
+            info = lambda u: Rec("InputInfo", dict(rate=z3.Real(f"{u}{name}.rate"), window=1, blocking=False, skip=False, jitter=None, phase=0.0, delay_dist=None, delay=0.0,
+                                                   name=("obs" if (u, name) == ("a", "b") else u), output=u), module=BASE, frozen=True)
+            ins = {u: Rec("InputRecord", dict(info=info(u), messages=Rec("MessageRecord", dict(seq_out=z3.Const(f"{u}{name}.seq_out", Leaf), seq_in=z3.Const(f"{u}{name}.seq_in", Leaf), ts_sent=z3.Const(f"{u}{name}.ts_sent", Leaf),
                                                                                                  ts_recv=z3.Const(f"{u}{name}.ts_recv", Leaf), delay=None), module=BASE, frozen=True)), module=BASE, frozen=True) for u in senders}
             return Rec("NodeRecord", dict(info=None, clock=None, real_time_factor=0, ts_start=0.0, params=None, inputs=ins, steps=steps), module=BASE, frozen=True)
         rec = Rec("EpisodeRecord", dict(nodes={"a": nrec("a", ["c"]), "b": nrec("b", ["a"]), "c": nrec("c", ["a", "b"])}), module=BASE, frozen=True)
